@@ -776,6 +776,12 @@ def _env_cfg(case: dict):
                 if c.get("options") is None:
                     c["options"] = {}
                 c["options"]["sticky"] = rng.chance(1, 2)
+    early = rng.chance(2, 3)
+    for a in cfg["agents"]:
+        # scripted attackers that wait 25 steps leave the database file GOOD for most of a short run: start some of them early
+        st = a.get("agent_settings")
+        if early and a.get("type") == "red-database-corrupting-agent" and isinstance(st, dict) and "start_step" in st:
+            st["start_step"], st["frequency"], st["variance"] = rng.range(2, 8), rng.range(3, 8), rng.range(0, 1)
     cfg["agents"] = rng.shuffle(cfg["agents"])
     agents = []
     rat = lambda x: show(Fraction(float(x)))  # noqa: E731
